@@ -246,7 +246,9 @@ def check_c19(idx: Index, tier: str, res: Result) -> None:
     if not dicts:
         raise AnalysisError("FileAdapter._save_instance: record literal not found")
     inner = dicts[0].values[[const_str(k) for k in dicts[0].keys].index("data")]
-    written = {const_str(k): v for k, v in zip(inner.keys, inner.values)} if isinstance(inner, ast.Dict) else {}
+    from ..util import _written_out as _wo_rec
+    # values through the locals they were put into first (encoded_state = jsonpickle.dumps(state.state))
+    written = {const_str(k): _wo_rec(sv.node, v) for k, v in zip(inner.keys, inner.values)} if isinstance(inner, ast.Dict) else {}
     read = set()
     # the record may be reached through a local (stored = <document>["data"])
     data_names = {n.targets[0].id for n in walk_no_nested(ld.node) if isinstance(n, ast.Assign) and len(n.targets) == 1 and isinstance(n.targets[0], ast.Name)
@@ -286,8 +288,10 @@ def check_c19(idx: Index, tier: str, res: Result) -> None:
         js = [c for c in iter_calls(fi.node) if call_name(c) == "join" and (call_recv(c) or "").endswith("path")]
         if len(js) != 1:
             raise AnalysisError("%s: file path expression not found" % fi.qual)
-        shape = [src(a) for a in js[0].args]
+        shape = [src(_wo_rec(fi.node, a)) for a in js[0].args]
         shape[1] = shape[1].replace("state.instance_id", "ID").replace("instance_uuid", "ID")
+        # str(ID) + ".json" and "{}.json".format(str(ID)) name the same file
+        shape[1] = shape[1].replace("'{}.json'.format(str(ID))", "str(ID) + '.json'").replace("'{}.json'.format(ID)", "str(ID) + '.json'")
         paths.append(tuple(shape))
     res.check("RECORD", "save, load and delete build the same file path", len(set(paths)) == 1, sv.loc(), "FileAdapter", str(paths[0]),
               "the three file operations build different paths: %s" % sorted(set(paths)), key="RECORD/FileAdapter/path")
